@@ -33,7 +33,7 @@ PARTIAL = {
 PARTIAL["C04"] = "proved: for all nine schemes, every byte string reachable from what _Enc returns (the index) and from what _Trap returns (the token) is the output of a PRF/PRP/SKE under a secret (key-derived) key, a hash of such an output, an XOR mask with one, random bytes or a public value -- provenance contracts decided by the labelled ownership pass over the real AST (SSE-2 index values may be identifiers, as the property allows; key material itself never flows into index or token); AESxCBC.Encrypt's output is iv || CBC(pkcs7(m)) with a fresh 16-byte IV (C14); CJJ14.PiBas/PiPack additionally by the SMT engine (Repr). NOT decided (assumed A2/A4): that such outputs do not contain a keyword by chance. Bounded stand-in: substring absence and ciphertext-block freshness over all nine schemes"
 PARTIAL["C10"] = "proved for all inputs: the loader Service.__init__ reports exactly the recorded state in the init echo and changes nothing on disk; Service.handle_upload_config / handle_upload_encrypted_database / handle_search_token / close_service against a ghost disk and message trace (exact guards, effects, frame, invariant mem.state == disk.state, refused requests change nothing and reply ok=False); trusted: FileManager functions (D1 model), lazy loaders; bounded stand-in: message histories against the 3-state model on the real connection handler"
 PARTIAL["C11"] = "proved for all inputs: the ten ClientServiceState flag helpers (set/clear/test exactly one bit), the server-state resynchronisation (touches only the two upload flags), and the synchronous client handlers handle_create_key / handle_encrypt_database / handle_upload_config_echo / handle_upload_encrypted_database_echo over a ghost client disk: exact prerequisite guards, a refused operation changes neither the persisted state nor any file, exactly one flag changes on success and the state record is rewritten, the key file is written only where none existed and no other handler touches it; trusted: client FileManager functions (D1 model), lazy loaders, the scheme calls; bounded stand-in: client operation histories against the 5-flag reference model with a live loopback server (including the asynchronous upload / search operations and handle_create_config), key write-once on the real files, rejected configurations"
-PARTIAL["C13"] = "proved for all inputs: the server handlers keep mem.state == recorded state and write config before the state record (contracts over the ghost disk); the client resynchronisation recovers both upload flags from the init echo; bounded stand-in: every file-system mutation of the seven persisting steps, kill before/after, restart, finish the workflow (in-process kill simulation)"
+PARTIAL["C13"] = "proved for all inputs: crash-prefix obligations -- after EVERY file-system mutation of the server handlers (create directory, write config, write state record, write index) and of the synchronous client handlers (write key, write index, write / delete files, write state record) the disk satisfies the recovery invariant 'the recorded state never promises a file that is not there' (server: record => directory and config, state 2 => index; client: key flag => key file, built-but-not-uploaded => local index); from that invariant the server loader (under contract) reports exactly the recorded state and changes nothing, and the client resynchronisation recovers both upload flags from the init echo; handlers keep mem.state == recorded state. Trusted: each FileManager function is one atomic mutation (D1; the state record is replaced by rename). Bounded stand-in: every file-system mutation of the seven persisting steps killed before/after on the real code, restart, finish the workflow (in-process kill simulation), including the asynchronous steps"
 PARTIAL["C09"] = "proved for all inputs: server handlers store exactly the received bytes and report/guard by the recorded state; client resynchronisation; bounded stand-in: the documented workflow over loopback websockets for all nine schemes with client re-creation and server restarts; the end-to-end composition lemma is not mechanised"
 PARTIAL["C19"] = "proved for all array lengths, item sizes, chunk sizes, indices and slices over the ghost file system (D2): index -> (file, offset) mapping and lazy file cache, int reads/writes with negative indices against the abstract view (a list of left-zero-padded items; unwritten regions read as zeros), slice reads, slice assignment (element-wise up to the shorter of slice and values, never resizing) WITH ROLLBACK -- a refused item in the middle of a slice assignment leaves every item as it was --, element and slice deletion and clear (zero fill), iteration, exact exception conditions with no effect on any file, create/reopen through the meta file, typestate closed => every operation raises ValueError, only the array's own chunk files are ever created or changed, client lemmas write->close->reopen, clear, failed write, failed slice write; bounded stand-in only: membership, from_list, release, non-bytes items inside a slice assignment, and mixed operation histories against a list model"
 PARTIAL["C20"] = "proved for all inputs over the ghost file system (D2) and pickle round trip (P1): every PickledDict operation equals dict's and touches no file; sync/close leave exactly pickle(contents) in the file and install the closed marker (typestate); open recovers the contents; from_dict copies; create on an existing / open on a missing path refuse; every operation on a closed dictionary raises ValueError; client lemmas close->reopen, sync->open, from_dict independence, close twice. DBMDict within one session (D3: the dbm handle is a dict of byte strings): BytesShelf get/set/delete/contains/len/iteration/get-with-default/sync/clear under contract with the invariant 'every cached value is the unpickled record of a present key' (clear = MutableMapping.clear restated as ghost code, or the repository's own definition if it has one), DBMDict delegation and refusal of non-bytes values without effect, client lemmas set->get, delete->contains, clear->len. Bounded stand-in only: DBMDict construction/close/reopen (dbm files), and mixed operation histories against a dict model"
